@@ -1,6 +1,6 @@
 (* GENERATED from C08.v.in by tools/strlit.py — edit the .in file *)
 (* C08 — paragraphs map one-to-one, in order, to heading, list-item and paragraph blocks. *)
-From Mammoth Require Import Api Cli DefaultStyleMap MiscSpec MiscFacts ConvertSpec HtmlCollapseSpec HtmlCollapse.
+From Mammoth Require Import Api Cli DefaultStyleMap MiscSpec MiscFacts ConvertSpec HtmlCollapseSpec HtmlCollapse ListsSpec ListsFacts.
 Local Open Scope N_scope.
 
 (* All facts below are computed over Gen/DefaultStyleMap.v, regenerated from options.py on every run:
@@ -39,6 +39,29 @@ Proof.
   intro H. apply merge_into_refuse. intros init l _. unfold mergeable. destruct l; try reflexivity. rewrite H. reflexivity.
 Qed.
 
+(* THE NESTING THEOREM (refinement of html.collapse on the default map's list paths to a stack machine, for block
+   sequences of ANY length and items of ANY depth): consecutive paragraph blocks nest exactly as Proofs/ListsSpec.v says —
+   an item at depth d sits inside d lists; it continues the open list at depth d when that list has its own type,
+   otherwise a new list is opened inside the open item of depth d-1; missing intermediate levels are bulleted lists with
+   an empty item; a heading or plain paragraph closes every open list.  Observed through the open/close/text events of the
+   collapsed forest, i.e. the shape and tag names of the HTML.  C08_list_paths above shows that the default map's paths for
+   depths 1..5 are exactly `list_path d o`. *)
+Theorem C08_default_lists_nest (bs : list block) :
+  forallb block_ok bs = true ->
+  fevents (collapse (fun s => s) (flat_map block_nodes bs)) = spec_events bs.
+Proof. exact (default_lists_nest bs). Qed.
+
+(* the machine on an example: bullet, numbered at depth 3 (one implicit level), numbered at depth 2, bullet at depth 2 *)
+Example C08_nest_witness :
+  forallb block_ok [BItem 1 false [Text [97]]; BItem 3 true [Text [98]]; BItem 2 true [Text [99]]; BItem 2 false [Text [100]]] = true /\
+  spec_events [BItem 1 false [Text [97]]; BItem 3 true [Text [98]]; BItem 2 true [Text [99]]; BItem 2 false [Text [100]]] =
+  [EOpen [117;108]; EOpen [108;105]; EText [97];
+     EOpen [117;108]; EOpen [108;105]; EOpen [111;108]; EOpen [108;105]; EText [98]; EClose [108;105]; EClose [111;108]; EClose [108;105]; EClose [117;108];
+     EOpen [111;108]; EOpen [108;105]; EText [99]; EClose [108;105]; EClose [111;108];
+     EOpen [117;108]; EOpen [108;105]; EText [100]; EClose [108;105]; EClose [117;108];
+   EClose [108;105]; EClose [117;108]].
+Proof. vm_compute. split; reflexivity. Qed.
+
 (* numbering resolution: the paragraph's own numId + ilvl take precedence (even when they resolve to nothing);
    otherwise the level of the paragraph style *)
 Theorem C08_own_numbering_first (env : renv) (ps : option str) (numPr : xml) (n l : str) :
@@ -64,5 +87,6 @@ Print Assumptions C08_list_paths.
 Print Assumptions C08_otherwise_p.
 Print Assumptions C08_blocks_fresh.
 Print Assumptions C08_fresh_never_merges.
+Print Assumptions C08_default_lists_nest.
 Print Assumptions C08_own_numbering_first.
 Print Assumptions C08_style_numbering_otherwise.
